@@ -421,6 +421,11 @@ func (group *Group) delIn() {
 	group.stopRecordFlvIfNeeded()
 	group.stopRecordMpegtsIfNeeded()
 
+	if group.customizePubSession != nil {
+		// the context stays in the hands of the business code: once it is no longer the input of this
+		// group, what it is fed must not reach the stream any more
+		group.customizePubSession.Dispose()
+	}
 	group.rtmpPubSession = nil
 	group.rtspPubSession = nil
 	group.customizePubSession = nil
